@@ -161,7 +161,7 @@ func (wpi *wpIterator) init(buf []byte) (err error) {
 	var idx int
 	// must be extremely care here. the tags could be stored later and leak to another components,
 	// so arrange them using new buf
-	idx, wpi.tags, err = xbinary.UnmarshalString(buf, true)
+	idx, wpi.tags, err = unmarshalString(buf, true)
 	if err != nil {
 		return err
 	}
@@ -169,7 +169,7 @@ func (wpi *wpIterator) init(buf []byte) (err error) {
 	var n int
 	var flds string
 	// flds using the buffer, we will transform them to new fields shortly
-	n, flds, err = xbinary.UnmarshalString(buf[idx:], false)
+	n, flds, err = unmarshalString(buf[idx:], false)
 	if err != nil {
 		return err
 	}
